@@ -22,6 +22,14 @@ def run(tier):
     r = run.mc("ScalarRecode", "MC_Recode_b8w4FALSE.cfg", timeout=600, expect_ok=False)
     if not r.violation:
         raise vlib.Infra("the recoding model without carry propagation was not rejected: invariants vacuous?")
+    # the G1 decomposition (caller, rounding by the reciprocal, truncations, signs) with its register widths on toy BLS12 members:
+    # every scalar of the accepted width, including those >= r that the caller passes on unreduced; broken variants must be rejected
+    for cfg in (["x3shippedFALSE", "x4shippedTRUE"] if tier == "quick" else ["x3shippedFALSE", "x4shippedTRUE", "x7shippedTRUE", "x4reduced-callerTRUE"]):
+        run.mc("GlvDecompose", "MC_Glv_%s.cfg" % cfg[:-5 if cfg.endswith("FALSE") else -4], timeout=600)
+    for bad in ("x4drop-b1", "x4c1-sign", "x4basis-off"):
+        r = run.mc("GlvDecompose", "MC_Glv_%s.cfg" % bad, timeout=600, expect_ok=False)
+        if "Invariant Recombines is violated" not in r.out:
+            raise vlib.Infra("GlvDecompose variant %s was not rejected: invariants vacuous?" % bad)
     cases = run.generate("Gen_Curve", "scalars", env={"WHAT": "scalars"})
     traces = []
     for cfg in (["asm", "p32"] if tier == "quick" else ["asm", "p64", "p32"]):
